@@ -61,11 +61,24 @@ ArrU == << U("minItems", KV("minItems", I(1))), U("maxItems", KV("maxItems", I(3
            U("itemsInt", KV("items", O(KV("type", S("integer")) @@ KV("minimum", I(1))))),
            U("itemsEnum", KV("items", O(KV("type", S("string")) @@ KV("enum", A(<<S("ab"), S("b")>>))))) >>
 
-TypeCat == << [t |-> "string", base |-> KV("type", S("string")), us |-> StrU],
-              [t |-> "integer", base |-> KV("type", S("integer")), us |-> IntU],
-              [t |-> "number", base |-> KV("type", S("number")), us |-> NumU],
-              [t |-> "boolean", base |-> KV("type", S("boolean")), us |-> BoolU],
-              [t |-> "array", base |-> KV("type", S("array")) @@ KV("items", O(KV("type", S("string")))), us |-> ArrU] >>
+(* the same keywords with the values a hand-written copy loses first: zero, false, the empty string, a negative number *)
+(* (each set is consistent, so that any two of its units make a valid schema: the default satisfies the bounds)         *)
+Str0U == << U("default", KV("default", S(""))), U("maxLength", KV("maxLength", I(0))), U("enum", KV("enum", A(<<S(""), S("b")>>))) >>
+Int0U == << U("minimum", KV("minimum", I(0))), U("maximum", KV("maximum", I(0))), U("default", KV("default", I(0))),
+            U("enum", KV("enum", A(<<I(0), I(1)>>))), U("minimumNeg", KV("minimum", I(0 - 1))) >>
+Bool0U == << U("default", KV("default", B(FALSE))) >>
+Arr0U == << U("maxItems", KV("maxItems", I(0))) >>
+
+(* z: a category of zero values (its bare member would repeat the bare member of the type) *)
+TypeCat == << [t |-> "string", base |-> KV("type", S("string")), us |-> StrU, z |-> FALSE],
+              [t |-> "integer", base |-> KV("type", S("integer")), us |-> IntU, z |-> FALSE],
+              [t |-> "number", base |-> KV("type", S("number")), us |-> NumU, z |-> FALSE],
+              [t |-> "boolean", base |-> KV("type", S("boolean")), us |-> BoolU, z |-> FALSE],
+              [t |-> "array", base |-> KV("type", S("array")) @@ KV("items", O(KV("type", S("string")))), us |-> ArrU, z |-> FALSE],
+              [t |-> "string/0", base |-> KV("type", S("string")), us |-> Str0U, z |-> TRUE],
+              [t |-> "integer/0", base |-> KV("type", S("integer")), us |-> Int0U, z |-> TRUE],
+              [t |-> "boolean/0", base |-> KV("type", S("boolean")), us |-> Bool0U, z |-> TRUE],
+              [t |-> "array/0", base |-> KV("type", S("array")) @@ KV("items", O(KV("type", S("string")))), us |-> Arr0U, z |-> TRUE] >>
 
 FName(us, ix) == IF Len(ix) = 0 THEN "bare" ELSE IF Len(ix) = 1 THEN us[ix[1]].n ELSE us[ix[1]].n \o "+" \o us[ix[2]].n
 FFun(us, ix) == IF Len(ix) = 0 THEN <<>> ELSE IF Len(ix) = 1 THEN us[ix[1]].f ELSE us[ix[1]].f @@ us[ix[2]].f
@@ -78,7 +91,8 @@ PairIdx(us, maxk) == {<<>>} \cup {<<i>> : i \in DOMAIN us}
 
 (* parameter-like keyword sets: [id, f] with f the keyword function (type included) *)
 PL(maxk) == UNION {{[id |-> TypeCat[ti].t \o "." \o FName(TypeCat[ti].us, ix), nk |-> Len(ix),
-                     f |-> FFun(TypeCat[ti].us, ix) @@ TypeCat[ti].base] : ix \in PairIdx(TypeCat[ti].us, maxk)}
+                     f |-> FFun(TypeCat[ti].us, ix) @@ TypeCat[ti].base]
+                       : ix \in {x \in PairIdx(TypeCat[ti].us, maxk) : x # <<>> \/ ~TypeCat[ti].z}}
                    : ti \in DOMAIN TypeCat}
 Prm(in, name, req, f) == O(KV("in", S(in)) @@ KV("name", S(name)) @@ If(req, KV("required", B(TRUE))) @@ f)
 RefTo(r) == O(KV("$ref", S(r)))
@@ -204,6 +218,13 @@ FormAtoms ==
          Atom("form", "file@shared+ext:required", "form:file", "shared", "UploadBlob", Prm("formData", "file", TRUE, KV("type", S("file")) @@ Ext), Nul, 1),
          Atom("form", "f1@op+ext:required", "form:f1", "op", "", Prm("formData", "f1", TRUE, KV("type", S("string")) @@ Ext), Nul, 2),
          Atom("form", "file@op+ext", "form:file", "op", "", Prm("formData", "file", FALSE, KV("type", S("file")) @@ Ext), Nul, 2)}
+   \cup \* the same key in two namespaces that OpenAPI 3 keeps in one: a shared form parameter stored under the key of a
+        \* definition (Pet is always there; D when a def atom is combined with it).  ToV3 keeps shared form parameters
+        \* as component schemas, next to the definitions.
+   {Atom("form", "f1@shared=Pet", "form:f1", "shared", "Pet", Prm("formData", "f1", FALSE, KV("type", S("string")) @@ KV("minLength", I(1))), Nul, 2),
+    Atom("form", "f2@shared=Pet:required", "form:f2", "shared", "Pet", Prm("formData", "f2", TRUE, KV("type", S("integer")) @@ KV("maximum", I(9))), Nul, 3),
+    Atom("form", "file@shared=Pet", "form:file", "shared", "Pet", Prm("formData", "file", FALSE, KV("type", S("file"))), Nul, 3),
+    Atom("form", "f1@shared=D", "form:f1", "shared", "D", Prm("formData", "f1", FALSE, KV("type", S("string")) @@ KV("pattern", S("^a"))), Nul, 2)}
    \cup \* array form parameters in each collectionFormat (inline and shared)
    UNION {{Atom("form", "f1@op:cf." \o cf, "form:f1", "op", "", Prm("formData", "f1", FALSE, ArrCF(cf, KV("minItems", I(1)))), Nul,
                 IF cf = "multi" THEN 2 ELSE 3),
@@ -270,6 +291,11 @@ SchemaCat(maxk) == LeafSchemas(maxk) \cup ObjSchemas
 BodyPrm(name, req, s) == O(KV("in", S("body")) @@ KV("name", S(name)) @@ If(req, KV("required", B(TRUE))) @@ KV("schema", s))
 RespObj(desc, s) == O(KV("description", S(desc)) @@ KV("schema", s))
 
+Wrap(w, s) == CASE w = "prop" -> O(TObj @@ KV("properties", O(KV("n", s))))
+                 [] w = "items" -> O(KV("type", S("array")) @@ KV("items", s))
+                 [] w = "allOf" -> O(KV("allOf", A(<<s>>)))
+                 [] w = "ap" -> O(TObj @@ KV("additionalProperties", s))
+
 SchemaAtoms ==
    \* definitions: the schema itself (keywords also in pairs), and at the nested places
    {Atom("def", "D:" \o sc.id, "def:D", "", "D", sc.s, Nul, sc.c) : sc \in SchemaCat(FieldK)}
@@ -280,6 +306,12 @@ SchemaAtoms ==
                 Atom("body", "body:" \o sc.id, "body", "op", "", BodyPrm("body", FALSE, sc.s), Nul, IF sc.c <= 2 THEN 2 ELSE 3),
                 Atom("resp", "200:" \o sc.id, "resp:200", "op", "200", RespObj("fine", sc.s), Nul, IF sc.c <= 2 THEN 2 ELSE 3)}
                : sc \in SchemaCat(1)}
+   \cup \* two levels of nesting: every pair of nesting positions (property, items, allOf member, additionalProperties)
+        \* around the schemas whose conversion is more than a copy (reference, x-nullable, discriminator, `required`
+        \* naming a parent's property, file / binary, a keyword pair)
+   {Atom("def", "D." \o w[1] \o "." \o w[2] \o ":" \o sc.id, "def:D", "", "D", Wrap(w[1], Wrap(w[2], sc.s)), Nul, 3)
+      : w \in {"prop", "items", "allOf", "ap"} \X {"prop", "items", "allOf", "ap"},
+        sc \in {x \in SchemaCat(1) : x.id \in {"ref", "nullableStr", "discriminator", "allOfRequiresParentProp", "integer.exclusiveMinimum"}}}
    \cup {Atom("def", "D:selfRef", "def:D", "", "D", O(TObj @@ KV("properties", O(KV("next", RefTo("#/definitions/D"))))), Nul, 2),
          Atom("def", "D:refToD2", "def:D", "", "D", O(TObj @@ KV("properties", O(KV("other", RefTo("#/definitions/Pet")) @@ KV("self", RefTo("#/definitions/D"))))), Nul, 3)}
 
@@ -299,7 +331,9 @@ BodyAtoms ==
          O(KV("type", S("array")) @@ KV("items", O(KV("type", S("string")) @@ KV("x-nullable", B(TRUE)))))), Nul, 1),
     Atom("body", "body:shared.xnull", "body", "shared", "B1", BodyPrm("body", FALSE,
          O(TObj @@ PropA(O(KV("type", S("string")) @@ KV("x-nullable", B(TRUE)))))), Nul, 1),
-    Atom("body", "body:arrayOfRef", "body", "op", "", BodyPrm("body", TRUE, O(KV("type", S("array")) @@ KV("items", PetRef))), Nul, 2)}
+    Atom("body", "body:arrayOfRef", "body", "op", "", BodyPrm("body", TRUE, O(KV("type", S("array")) @@ KV("items", PetRef))), Nul, 2),
+    \* a shared body parameter stored under the key of the definition it refers to (request bodies are a namespace of their own in OpenAPI 3)
+    Atom("body", "body:shared=Pet", "body", "shared", "Pet", BodyPrm("pet", TRUE, PetRef), Nul, 2)}
 
 Hdr(f) == O(f)
 RespAtoms ==
